@@ -7,15 +7,19 @@ def system_level(ctx, binary, projects, limit):
     """run every project both ways: stdout, exit class and loaded instruction streams must agree"""
     base = ctx.mktemp()
     todo = projects[:limit]
+    tmo = 8 if ctx.quick() else 20
 
     def one(proj):
         d = programs.materialize(proj, base)
         e = proj["entry"]
-        r1 = programs.run_bin(binary, ["run", e, "-q"], d, {"MSCRIPT_VERIF_DUMP": os.path.join(d, "dump1")})
+        r1 = programs.run_bin(binary, ["run", e, "-q"], d, {"MSCRIPT_VERIF_DUMP": os.path.join(d, "dump1")}, timeout=tmo)
         d2 = programs.materialize(proj, base)
         c = programs.run_bin(binary, ["compile", e, "--quick"], d2)
         r2 = None
-        if c[0] == 0:
+        if r1[0] == 124:
+            # a program that does not finish within the time limit cannot be compared: do not wait for it twice more
+            r2 = (124, "", "")
+        elif c[0] == 0:
             mmm = e[:-3] + ".mmm"
             r2 = programs.run_bin(binary, ["execute", mmm], d2, {"MSCRIPT_VERIF_DUMP": os.path.join(d2, "dump2")})
         def rd(p):
@@ -81,9 +85,9 @@ def recompile_over_existing(ctx, binary, projects, limit):
         with open(os.path.join(d, e), "w", encoding="utf8") as f:
             f.write(proj["files"][e])
         c1 = programs.run_bin(binary, ["compile", e, "--quick"], d)
-        r2 = programs.run_bin(binary, ["execute", e[:-3] + ".mmm"], d) if c1[0] == 0 else None
         d1 = programs.materialize(proj, base)
-        r1 = programs.run_bin(binary, ["run", e, "-q"], d1)
+        r1 = programs.run_bin(binary, ["run", e, "-q"], d1, timeout=8 if ctx.quick() else 20)
+        r2 = (124, "", "") if r1[0] == 124 else (programs.run_bin(binary, ["execute", e[:-3] + ".mmm"], d) if c1[0] == 0 else None)
         shutil.rmtree(d, ignore_errors=True)
         shutil.rmtree(d1, ignore_errors=True)
         return proj, c0, c1, r1, r2
@@ -156,7 +160,7 @@ def run(ctx):
     ctx.cov["traces_validated_against_impl"] = n_dump
     ctx.cov["trusted_base"] = ["Coq 8.16.1 kernel (coqc; vm_compute in Examples)", "no axioms (Print Assumptions: closed under the global context)",
                                "extraction: ExtrOcamlBasic only; extract/codec_driver.ml glue", "harness/codec + hooks H3/H4 (bytecode::verif::load_and_dump, compiler::verif::repr_functions)",
-                               "UTF-8 is a bijection mapping only U+0000 to a zero byte (files are modelled as lists of scalars)"]
+                               "UTF-8: modelled (Codec/Utf8.v), proved a bijection (C04_utf8_decode_spec, C04_utf8_zero_byte_iff) and tied on this run: Utf8.encode of the model's file == the bytes the Rust writer wrote (field binhex)"]
     ctx.assumptions = ["model Codec/Model.v is hand-written; tied to the code by this run's differential comparison",
                        "String::from_utf8_lossy on arguments is the identity on valid UTF-8"]
-    core.proof_or_search(ctx, ok, ["C04_args_roundtrip", "C04_file_roundtrip"], spec_fail > 0)
+    core.proof_or_search(ctx, ok, ["C04_args_roundtrip", "C04_file_roundtrip", "C04_file_roundtrip_bytes", "C04_utf8_decode_spec", "C04_utf8_zero_byte_iff"], spec_fail > 0)
